@@ -50,6 +50,9 @@ def gen(rng, n, tier):
             if nrows < 3: bk = "edges"
             else:
                 for k in range(3): rows[k] = [(Fr((k * 2 + c) * iscale) if ints else fl(k * 2.5 + c * 0.3)) for c in range(nd)]
+        if bk == "edges" and nd >= 2 and nrows >= 1 and not ints and rng.random() < 0.15:
+            # a row that holds both infinities (1/x beside log x at x = 0): it is no NaN row, it stays (and falls outside the bins)
+            k0 = rng.randrange(nrows); rows[k0] = ["inf", "-inf"] + [fl(rng.uniform(-3, 12)) for _ in range(nd - 2)]
         if bk == "edges": bins = ["edges", [[fl((-1 + 3.1 * k + 0.1 * a) * iscale) for k in range(rng.randint(2, 6))] for a in range(nd)]]
         elif bk == "int": bins = ["int", rng.randint(1, 6)]
         else: bins = ["fixed", fl(rng.choice({1: [0.5, 1.0, 2.5, 0.1], 2: [1.0, 2.5], 3: [2.5, 5.0]}[nd]) * iscale)]
@@ -60,7 +63,7 @@ def gen(rng, n, tier):
         if defect in ("nonnumeric", "null") and nrows == 0: defect = "none"
         if f32:      # values that single precision holds exactly: float32 containers must give the float64 result
             import struct
-            rows = [[(x if x == "nan" else Fr(struct.unpack("f", struct.pack("f", float(x)))[0])) for x in r] for r in rows]
+            rows = [[(x if isinstance(x, str) else Fr(struct.unpack("f", struct.pack("f", float(x)))[0])) for x in r] for r in rows]
         chunks = sorted(rng.sample(range(1, max(2, nrows)), min(rng.randint(0, 6), max(0, nrows - 1)))) if nrows > 1 else []
         yield [["bucket", "container/%dd/%s/%s" % (nd, bk, defect)], ["kind", "container"], ["rows", rows], ["weights", weights], ["dropna", "T" if dropna else "F"],
                ["bins", bins], ["names", names], ["explicit", explicit], ["defect", defect], ["chunks", chunks], ["ints", "T" if ints else "F"], ["f32", "T" if f32 else "F"]]
